@@ -14,7 +14,7 @@
 
 
 import asyncio
-from collections.abc import Awaitable
+import inspect
 from contextvars import ContextVar, Token
 from typing import Any, Optional
 
@@ -51,7 +51,8 @@ async def resolve_awaitables(x: Any):
     """
     Resolve a possibly-nested collection of awaitables.
     """
-    if isinstance(x, Awaitable):
+    if inspect.isawaitable(x):
+        # (also true for generator-based coroutines made by @types.coroutine, which isinstance(x, Awaitable) rejects)
         return await x
     if isinstance(x, (ConstFuture, ErrorFuture, Future)):
         # futures that need no scheduler: a constant, an error (value() raises it), a lazy value provider
